@@ -164,6 +164,14 @@ theorem distributed_bind_calls :
     callsOf "workerBinder.WithDistributedQueue" = ["Subscribe", "start", "Register", "NewDistributedQueue"] ∧
     callsOf "workerBinder.WithDistributedPriorityQueue" = ["Subscribe", "start", "Register", "NewDistributedPriorityQueue"] := by decide
 
+/-- local variables shared between goroutines through function literals: the worker function's outcome (`err`) lives
+    in the per-job closure (`…$1`, one instance per invocation) and is only assigned by the closure nested in it; `w` is
+    assigned once by the constructor before the worker exists for anybody else. A variable hoisted out of the per-job
+    closure (one instance for all invocations) changes this list. -/
+theorem shared_vars : Generated.sharedVars =
+    ["err NewErrWorker$1 NewErrWorker$2", "err NewResultWorker$1 NewResultWorker$2", "err WithSafe WithSafe$1",
+     "w NewErrWorker NewErrWorker", "w NewResultWorker NewResultWorker", "w NewWorker NewWorker"] := by decide
+
 -- ---------------------------------------------------------------- C19: what the race check has to know about
 /-- every kind of synchronisation operation in the code is one the happens-before mapping of the
     driver (`RaceMap.events`) gives a meaning to; a new primitive (sync.Once, sync.Map, atomic.Value …)
